@@ -11,15 +11,18 @@ SOLVES = ["geometry::vec_matrix::VecMatrix::<T>::solve", "geometry::matrix::Matr
 
 EXPLANATION = (
     "Decided: (1) canonical residues: the only constructions of PrimeResidueClass{value} in the crate are the From<i64>/From<i32> impls and the "
-    "derived Clone; an interval evaluation of the stored value on every path, with bounds linear in the symbolic modulus P >= 2, gives "
-    "value in [0, P-1] (so every integer input, negative multiples of P included, gets the canonical representative, and every arithmetic "
-    "operator, which goes through .into(), does too). (2) every modulus with which the type is instantiated in non-test code is a prime with "
-    "(P-1)^2 <= i64::MAX and 2P <= i64::MAX, so + - * cannot overflow on canonical values. (3) pivot precondition: Entry::pivot_row and "
-    "clear_col read a[(row, col)] unconditionally (derived from the impl bodies); in both row-echelon constructors every such use of the "
-    "running row counter, `cols[row] = col` and `row + 1` are dominated by a still-valid upper bound on the counter, so no matrix shape "
-    "(wide full-rank, tall) can drive the pivot search past the last row. (4) in both `solve` twins every division is dominated by "
-    "can_divide on the same operands and Some(result) is only built after the residual rows were tested to be zero. NOT decided: exact "
-    "determinant values, null-space dimension, completeness of solve, correctness of the gcd steps, p-adic lifting and rational reconstruction.")
+    "derived Clone; an interval evaluation of the stored value on every path, with bounds linear in the symbolic modulus P >= 2, gives value in "
+    "[0, P-1] (so every integer input, negative multiples of P included, gets the canonical representative, and every arithmetic operator, which "
+    "goes through .into(), does too). (2) every modulus with which the type is instantiated in non-test code is a prime with (P-1)^2 <= i64::MAX "
+    "and 2P <= i64::MAX, so + - * cannot overflow on canonical values. (3) pivot precondition: Entry::pivot_row and clear_col read a[(row, col)] "
+    "unconditionally (derived from the impl bodies); in both row-echelon constructors every such use of the running row counter, `cols[row] = "
+    "col` and `row + 1` are dominated by a still-valid upper bound on the counter, so no matrix shape (wide full-rank, tall) can drive the pivot "
+    "search past the last row. (4) in both `solve` twins every division is dominated by can_divide on the same operands and Some(result) is only "
+    "built after the residual rows were tested to be zero. Also decided (rounds 3-5): gcdx satisfies the extended-Euclid contract (induction on "
+    "sampled states) and the integer elimination step is a determinant-(+1) row operation that clears the column and is applied identically to "
+    "the multiplier (expressions evaluated on sampled gcdx outputs), so row-swap counting gives the exact determinant sign; the two row-echelon "
+    "twins agree structurally. NOT decided: exact determinant values in general, null-space dimension, completeness of solve, p-adic lifting and "
+    "rational reconstruction, overflow.")
 TRUSTED = ["rustc MIR lowering (dev profile)", "A2 i64::rem_euclid(x, P) lies in [0, P-1] for P > 0", "A7 primality by trial division in the checker",
            "weak criterion for the pivot bound: an upper bound on the row counter dominates; equality with the row count is read off the guard term"]
 ASSUMPTIONS = ["PrimeResidueClass<P> is only instantiated with P >= 2 (checked for every concrete instantiation found in non-test code)"]
